@@ -29,7 +29,8 @@ META = {
                "generic real (Hilbert), GUPPI raw (USB/LSB, LIN/CIRC), DADA Stokes (BW of either sign)", "sideband": "False, True, boolean mask"},
     "assumptions": ["exact real time arithmetic", "the stub stream behaves like baseband's StreamReader (fresh handle per read, seek then read)"],
     "outside": ["that baseband decodes the files correctly", "concurrent reads from many threads", "Dask reads (C09)",
-                "Time round-off in offset_at(time_at(k))"],
+                "Time round-off in offset_at(time_at(k)) through absolute times; the floating-point round trip through relative times is "
+                "decided at the (6,14) format for k <= 64 only"],
 }
 R2CR = z3.Function("r2c_re", z3.IntSort(), z3.IntSort(), z3.IntSort(), z3.IntSort(), z3.RealSort())
 R2CI = z3.Function("r2c_im", z3.IntSort(), z3.IntSort(), z3.IntSort(), z3.IntSort(), z3.RealSort())
@@ -317,8 +318,80 @@ class Read(Unit):
         return f"reader:{self.kind}:{label.split(':', 1)[-1]}"
 
 
+class _ArrReader(RB.BaseReader):
+    def _read_array(self, offset, n, /, **kw):
+        return np.zeros((n, 2), np.float32)
+
+
+class RoundTripFP(Unit):
+    """offset_at(time_at(k, unit)) == k in FLOATING POINT through the relative-time path: the real time_at / offset_at code runs on
+    IEEE shadow values of a reduced format (one division, one or two multiplications, one rounding to integer)"""
+    functions = ("pulsarbat.readers._base:BaseReader.time_at", "pulsarbat.readers._base:BaseReader.offset_at")
+    witnesses = 0
+    query_timeout_ms = 600000
+    budget_s = 2400
+    keep_budget = True
+    solver_factory = staticmethod(lambda: z3.Tactic("qffp").solver())
+
+    def __init__(self, fmt, kmax, unit):
+        self.fmt, self.kmax, self.unit = fmt, kmax, unit
+        self.name = f"roundtrip-fp{fmt[0]}_{fmt[1]}-k{kmax}-{unit}"
+        self.bounds = {"float_format(exponent,significand bits)": list(fmt), "0<=k<=": kmax, "sample_rate": "any value of the format in (0.01, 1000) Hz",
+                       "time_unit": unit, "note": "reduced width: the code is width-generic; z3 does not finish at float32/float64 (unknown after 300-600 s)"}
+
+    def patches(self):
+        from pbsym.fp import SFP
+        SFP.SORT = z3.FPSort(*self.fmt)
+
+        def keep(x):
+            if isinstance(x, u.Quantity):
+                x = x.to_value(u.one)
+                x = x[()] if isinstance(x, np.ndarray) else x
+            return x
+        return [(RB, "np", NPProxy()), (RB, "u", UProxy()), (RB, "int", keep), (RB, "operator", OpProxy())]
+
+    def path(self, ctx, state):
+        from pbsym.fp import SFP
+        SFP.SORT = z3.FPSort(*self.fmt)
+        try:
+            return Unit.path(self, ctx, state)
+        finally:
+            SFP.SORT = z3.Float64()
+
+    def build(self, S):
+        from pbsym.fp import SFP, RNE
+        sr, k = S.fp("sr"), S.fp("k")
+        if S.symbolic:
+            so = SFP.SORT
+            S.assume(z3.And(z3.fpGT(sr.e, z3.FPVal(0.01, so)), z3.fpLT(sr.e, z3.FPVal(1000.0, so))))
+            S.assume(z3.And(z3.fpRoundToIntegral(RNE, k.e) == k.e, z3.fpGEQ(k.e, z3.FPVal(0.0, so)), z3.fpLEQ(k.e, z3.FPVal(float(self.kmax), so))))
+        else:
+            S.assume(0.01 < sr < 1000 and float(k).is_integer() and 0 <= k <= self.kmax)
+        return {"sr": sr, "k": k, "sym": S.symbolic}
+
+    def call(self, a):
+        from pbsym.tarr import oq
+        r = _ArrReader(shape=(self.kmax, 2), dtype=np.float32, sample_rate=1 * u.kHz)
+        r._sample_rate = oq(a["sr"], u.Hz) if a["sym"] else a["sr"] * u.Hz
+        k = a["k"] if a["sym"] else int(a["k"])
+        un = {"s": u.s, "ms": u.ms}[self.unit]
+        return r.offset_at(r.time_at(k, unit=un))
+
+    def spec(self, S, a, out):
+        if isinstance(out, Raised):
+            return [("no-exception", z3.BoolVal(True))]
+        if S.symbolic:
+            return [("offset_at(time_at(k))==k", z3.Not(z3.fpEQ(out.e, a["k"].e)))]
+        return [("offset_at(time_at(k))==k", z3.BoolVal(int(out) != int(a["k"])))]
+
+    def signature(self, label, values, detail):
+        return f"reader:roundtrip-fp:{label}"
+
+
 def units(tier):
-    us = []
+    us = [RoundTripFP((6, 14), 64, "s")]
+    if tier != "quick":
+        us += [RoundTripFP((6, 14), 64, "ms"), RoundTripFP((5, 11), 256, "s")]
     for kind in ("complex", "real"):
         for lsb in (False, True, "mask"):
             us.append(Read(kind, lsb))
